@@ -143,13 +143,13 @@ theorem compLoop_cons (cv : CV) (p : Profile) (mesgNum fuel : Nat) (multi : Bool
               | some sf => sf.comps
               | none => (createField p mesgNum c.fieldNum).2.1)) bits' rest := by
   by_cases hbrk : (Fit.Bits.pull bits c.bits).1 = 0 ∧ multi = true
-  · left; rw [compLoop]; simp only [hbrk, and_self, if_true]
+  · left; rw [compLoop_cons_eq]; simp only [hbrk, and_self, if_true]
   · right
     let pr := Fit.Bits.pull bits c.bits
     let av := if c.accumulate then Fit.Accum.accumulate st.acc mesgNum c.fieldNum pr.1 c.bits else (pr.1, st.acc)
     let cf := createField p mesgNum c.fieldNum
     refine ⟨av.2, convertU32 (cv av.1 c.scale c.offset cf.1.scale cf.1.offset) cf.1.baseType, cf.1.baseType, pr.2, _, rfl, ?_⟩
-    rw [compLoop]
+    rw [compLoop_cons_eq]
     simp only [hbrk, if_false]
     rfl
 
@@ -160,7 +160,7 @@ theorem loop_of_expand (cv : CV) (p : Profile) (mesgNum : Nat) (D : List Nat) (h
       Inv D st.fields (compLoop cv p mesgNum fuel multi st bits comps).fields := by
   intro comps
   induction comps with
-  | nil => intro multi st bits _; rw [compLoop]; exact Inv.refl _ _
+  | nil => intro multi st bits _; rw [compLoop_nil_eq]; exact Inv.refl _ _
   | cons c rest ih =>
     intro multi st bits hD
     have hc : c.fieldNum ∈ D := hD c (by simp)
@@ -184,7 +184,7 @@ theorem expand_of_loop (cv : CV) (p : Profile) (mesgNum : Nat) (D : List Nat) (f
     ∀ (st : St) (v : Value.Value) (bt : Nat) (comps : List Comp), (∀ c ∈ comps, c.fieldNum ∈ D) →
       Inv D st.fields (expandComponents cv p mesgNum (fuel + 1) st v bt comps).fields := by
   intro st v bt comps hD
-  rw [expandComponents]
+  rw [expandComponents_succ_eq]
   split_ifs
   · exact Inv.refl _ _
   · exact Inv.refl _ _
@@ -196,7 +196,7 @@ theorem expand_inv (cv : CV) (p : Profile) (mesgNum : Nat) (D : List Nat) (hC : 
     ∀ (st : St) (v : Value.Value) (bt : Nat) (comps : List Comp), (∀ c ∈ comps, c.fieldNum ∈ D) →
       Inv D st.fields (expandComponents cv p mesgNum fuel st v bt comps).fields := by
   induction fuel with
-  | zero => intro st v bt comps _; rw [expandComponents]; exact Inv.refl _ _
+  | zero => intro st v bt comps _; rw [expandComponents_zero_eq]; exact Inv.refl _ _
   | succ f ih => exact expand_of_loop cv p mesgNum D f (loop_of_expand cv p mesgNum D hC f ih)
 
 theorem closed_destsOf (p : Profile) (mesgNum : Nat) : Closed p mesgNum (destsOf p mesgNum) := by
@@ -262,5 +262,142 @@ theorem decodeTail_inv (cv : CV) (p : Profile) (expand : Bool) (acc : Fit.Accum.
   · refine ⟨?_, rfl, rfl⟩
     simp only
     exact expandAll_inv cv p m.num m.fields.length 0 { acc := _, fields := m.fields }
+
+/-! ### only the destinations of the components PRESENT in the message can change -/
+
+theorem Inv.mono {D D' : List Nat} {a b : List Field} (h : ∀ n ∈ D, n ∈ D') (hi : Inv D a b) : Inv D' a b := by
+  obtain ⟨l, k, e⟩ := hi
+  refine ⟨l, ?_, e⟩
+  intro i f hf
+  obtain ⟨f', h1, h2, h3, h4⟩ := k i f hf
+  exact ⟨f', h1, h2, h3, fun hn => h4 (fun n hnf hD => hn n hnf (h n hD))⟩
+
+theorem reach_mono (p : Profile) (mesgNum k : Nat) (cs cs' : List Comp) (h : ∀ c ∈ cs, c ∈ cs') :
+    ∀ n ∈ reach p mesgNum k cs, n ∈ reach p mesgNum k cs' := by
+  cases k with
+  | zero => intro n hn; simp [reach] at hn
+  | succ k =>
+    intro n hn
+    simp only [reach, List.mem_flatMap] at hn ⊢
+    obtain ⟨c, hc, hn⟩ := hn
+    exact ⟨c, h c hc, hn⟩
+
+theorem createField_comps_sub (p : Profile) (mesgNum num : Nat) :
+    (∀ c ∈ (createField p mesgNum num).2.1, c ∈ compsOfNum p mesgNum num) ∧
+      (∀ sf ∈ (createField p mesgNum num).2.2, ∀ c ∈ sf.comps, c ∈ compsOfNum p mesgNum num) := by
+  unfold createField compsOfNum
+  cases lookup p mesgNum num with
+  | none => simp
+  | some f =>
+    simp only [compsAll]
+    exact ⟨fun c hc => List.mem_append_left _ hc,
+      fun sf hsf c hc => List.mem_append_right _ (List.mem_flatMap.mpr ⟨sf, hsf, hc⟩)⟩
+
+theorem loop_reach (cv : CV) (p : Profile) (mesgNum k : Nat)
+    (hE : ∀ (st : St) (v : Value.Value) (bt : Nat) (comps : List Comp),
+      Inv (reach p mesgNum k comps) st.fields (expandComponents cv p mesgNum k st v bt comps).fields) :
+    ∀ (comps : List Comp) (multi : Bool) (st : St) (bits : List Nat),
+      Inv (reach p mesgNum (k + 1) comps) st.fields (compLoop cv p mesgNum k multi st bits comps).fields := by
+  intro comps
+  induction comps with
+  | nil => intro multi st bits; rw [compLoop_nil_eq]; exact Inv.refl _ _
+  | cons c rest ih =>
+    intro multi st bits
+    rcases compLoop_cons cv p mesgNum k multi st bits c rest with h | ⟨acc', value, bt, bits', fields', hf, h⟩
+    · rw [h]; exact Inv.refl _ _
+    · rw [h]
+      have hD : reach p mesgNum (k + 1) (c :: rest) =
+          (c.fieldNum :: reach p mesgNum k (compsOfNum p mesgNum c.fieldNum)) ++ reach p mesgNum (k + 1) rest := by
+        simp [reach]
+      rw [hD]
+      have h1 : Inv ((c.fieldNum :: reach p mesgNum k (compsOfNum p mesgNum c.fieldNum)) ++ reach p mesgNum (k + 1) rest)
+          st.fields fields' := by
+        rw [hf]; exact step_inv _ st.fields c.fieldNum (by simp) value _
+      refine Inv.trans h1 (Inv.trans ?_ (Inv.mono (fun n hn => List.mem_append_right _ hn) (ih _ _ _)))
+      refine Inv.mono ?_ (hE { acc := acc', fields := fields' } value bt _)
+      intro n hn
+      apply List.mem_append_left
+      apply List.mem_cons_of_mem
+      refine reach_mono p mesgNum k _ _ ?_ n hn
+      intro c' hc'
+      obtain ⟨g1, g2⟩ := createField_comps_sub p mesgNum c.fieldNum
+      split at hc'
+      · rename_i sf hsf
+        exact g2 sf (subFieldSubst_mem _ _ _ hsf) c' hc'
+      · exact g1 c' hc'
+
+theorem expand_reach (cv : CV) (p : Profile) (mesgNum : Nat) (fuel : Nat) :
+    ∀ (st : St) (v : Value.Value) (bt : Nat) (comps : List Comp),
+      Inv (reach p mesgNum fuel comps) st.fields (expandComponents cv p mesgNum fuel st v bt comps).fields := by
+  induction fuel with
+  | zero => intro st v bt comps; rw [expandComponents_zero_eq]; exact Inv.refl _ _
+  | succ k ih =>
+    intro st v bt comps
+    rw [expandComponents_succ_eq]
+    split_ifs
+    · exact Inv.refl _ _
+    · exact Inv.refl _ _
+    · split
+      · exact Inv.refl _ _
+      · exact loop_reach cv p mesgNum k ih _ _ _ _
+
+theorem fieldComps_sub (p : Profile) (mesgNum : Nat) (fields : List Field) (f : Field) (b : FieldBase)
+    (hb : f.base = some b) : ∀ c ∈ fieldComps p mesgNum fields f, c ∈ compsOfNum p mesgNum b.num := by
+  intro c hc
+  unfold fieldComps at hc
+  simp only [hb] at hc
+  unfold compsOfNum
+  cases hl : lookup p mesgNum b.num with
+  | none => simp [hl] at hc
+  | some fl =>
+    simp only [hl] at hc ⊢
+    split at hc
+    · rename_i sf hsf
+      exact List.mem_append_right _ (List.mem_flatMap.mpr ⟨sf, subFieldSubst_mem _ _ _ hsf, hc⟩)
+    · exact List.mem_append_left _ hc
+
+theorem expandAll_present (cv : CV) (p : Profile) (mesgNum : Nat) (orig : List Field) :
+    ∀ (k i : Nat) (st : St), i + k ≤ orig.length → Inv (destsPresent p mesgNum orig) orig st.fields →
+      Inv (destsPresent p mesgNum orig) orig (expandAll cv p mesgNum st k i).fields := by
+  intro k
+  induction k with
+  | zero => intro i st _ h; rw [expandAll]; exact h
+  | succ k ih =>
+    intro i st hik h
+    rw [expandAll]
+    split
+    · exact h
+    · rename_i f hf
+      refine ih (i + 1) _ (by omega) (Inv.trans h ?_)
+      -- the field at a wire position still has the base it was read with
+      have hi : i < orig.length := by omega
+      obtain ⟨f', hf', hbase, _, _⟩ := h.2.1 i orig[i] (by simp [hi])
+      rw [hf] at hf'; cases hf'
+      cases hb : f.base with
+      | none =>
+        have : fieldComps p mesgNum st.fields f = [] := by unfold fieldComps; simp [hb]
+        rw [this]
+        cases expandFuel with
+        | zero => rw [expandComponents_zero_eq]; exact Inv.refl _ _
+        | succ n => rw [expandComponents_succ_eq]; simp; exact Inv.refl _ _
+      | some b =>
+        refine Inv.mono ?_ (expand_reach cv p mesgNum expandFuel st f.value _ (fieldComps p mesgNum st.fields f))
+        intro n hn
+        have hn' := reach_mono p mesgNum expandFuel _ _ (fieldComps_sub p mesgNum st.fields f b hb) n hn
+        unfold destsPresent
+        refine List.mem_flatMap.mpr ⟨orig[i], List.getElem_mem hi, ?_⟩
+        rw [← hbase, hb]
+        exact hn'
+
+/-- the tail of `decodeFields` on one message: only destinations of components present in it can change -/
+theorem decodeTail_present (cv : CV) (p : Profile) (expand : Bool) (acc : Fit.Accum.Acc) (m : Message) :
+    Inv (destsPresent p m.num m.fields) m.fields (decodeTail cv p expand acc m).2.fields ∧
+      (decodeTail cv p expand acc m).2.num = m.num ∧ (decodeTail cv p expand acc m).2.devFields = m.devFields := by
+  unfold decodeTail
+  split_ifs
+  · exact ⟨Inv.refl _ _, rfl, rfl⟩
+  · refine ⟨?_, rfl, rfl⟩
+    simp only
+    exact expandAll_present cv p m.num m.fields m.fields.length 0 { acc := _, fields := m.fields } (by omega) (Inv.refl _ _)
 
 end Fit.Expand
